@@ -49,6 +49,9 @@ ALPHABET = [("role_off",), ("role_on",), ("create",), ("join", 77), ("cancel",),
             ("near3",)]
 
 
+OTHER_REASONS = ("clusteringPurposeCompleted", "notProvided", "leaderMovedOutOfClusterBoundingBox", "joiningAnotherCluster", "enteringLowRiskAreaBasedOnMaps", "max")
+
+
 class Model:
     """Reference acceptor for the timing rules (clause 5.4.2 durations), stepped beside the real manager."""
 
@@ -87,6 +90,8 @@ def run_sequence(seq, res, sample=False):
     clock = VClock()          # not installed globally: the manager takes time_fn
     mgr = VBSClusteringManager(own_station_id=42, own_vru_profile="pedestrian", time_fn=clock.now)
     m = Model()
+    import zlib
+    n_rx = [zlib.crc32(repr(seq).encode())]
     random.seed(7)
     ctx = {"part": "E", "seq": [list(e) for e in seq]}
     for i, ev in enumerate(seq):
@@ -147,8 +152,13 @@ def run_sequence(seq, res, sample=False):
             elif k == "rx":
                 what, sender = ev[1], ev[2]
                 cid = mgr.get_cluster_id() if what == "join_own" else None
+                # every value the ClusterBreakupReason type can carry on the air (a foreign leader may send any of them)
+                n_rx[0] += 1
+                other_reason = OTHER_REASONS[n_rx[0] % len(OTHER_REASONS)]
+                if what == "breakup_leader":
+                    res.count(f"breakup_reason_received[{other_reason}]")
                 v = {"plain": vam_dict(sender), "plain_leader": vam_dict(sender), "info77": vam_dict(sender, "info", 77), "info88": vam_dict(sender, "info", 88),
-                     "join_own": vam_dict(sender, "join", cid or 1), "breakup_leader": vam_dict(sender, "breakup", m.joined or 77),
+                     "join_own": vam_dict(sender, "join", cid or 1), "breakup_leader": vam_dict(sender, "breakup", m.joined or 77, other_reason),
                      "breakup_cpm": vam_dict(sender, "breakup", m.joined or 77, "receptionOfCpmContainingCluster")}[what]
                 mgr.on_received_vam(v)
                 m.nearby[sender] = now
